@@ -57,7 +57,7 @@ struct AllTuple<FailPolicy::FirstFail, OutputValue, OutputError, InputCore> {
       } else {
         std::move(_p).Set(std::forward<Result>(result).Exception());
       }
-    } else {
+    } else if (result) {
       std::get<Index>(_tuple) = std::forward<Result>(result).Value();
     }
   }
